@@ -13,7 +13,7 @@ CHECKS = {
  "C18": ("5.18", "real Window (real VecDeque/drain) against a fixed-array reference queue for concrete operation scripts with symbolic contents and remove amounts; plus equivalence of the pop_front model used elsewhere. Bounded: W<=4, chunk<=3, file<=8 bytes.", "Trusted base: model file (src/verif.rs), reference queue in /verif/kani/window_h.rs; Kani dev-profile semantics."),
 }
 NA = {
- "C03": "std Path component iteration / join / str::contains on 2-3 symbolic bytes did not leave symbolic execution in 16 min at 10 GB (probed); effect side needs sockets and the real fs",
+ "C03": "std Path component iteration / join / str::contains on 2-3 symbolic bytes did not leave symbolic execution in 16 min at 10 GB, and even five fully concrete request names did not finish in 500 s each (probed twice); effect side needs sockets and the real fs",
  "C05": "listener loop is blocking FFI (recv_from), fatal paths are allocator aborts and thread spawning; not encodable in Kani (no FFI, malloc never fails, no threads)",
  "C06": "decision table inside listen/handle_*: attempted with a Server around UdpSocket::from_raw_fd and all std networking calls stubbed, but kani-compiler 0.68 ICEs (intrinsics.rs:243, catch_unwind) as soon as handle_wrq/handle_rrq is reachable because they drop the JoinHandle returned by Worker::receive/send; the handlers cannot be encoded with the installed tool",
  "C12": "thread scheduling, mpsc channels and kernel demultiplexing by connect(): Kani does not model concurrency",
